@@ -1699,7 +1699,7 @@ func ruleEveryStmtEmittedInPlace(c *Ctx, rule string) {
 	L := c.L
 	for _, spec := range []struct{ fn, list string }{
 		{"generateStmts", "field:internal/kessoku.Injector.Stmts("},
-		{"(*InjectorChainStmt).Stmt", "field:internal/kessoku.InjectorChainStmt.Statements("},
+		{"(*InjectorChainStmt).Stmt#emits", "field:internal/kessoku.InjectorChainStmt.Statements("},
 	} {
 		fn := genFn(c, rule, spec.fn)
 		if fn == nil {
@@ -2889,6 +2889,32 @@ func ruleEllipsisOnlyLast(c *Ctx, rule string) {
 						walk(x.Y, d+1)
 					case *ssa.UnOp:
 						walk(x.X, d+1)
+					case *ssa.Parameter:
+						// a flag handed in by the callers: every caller passes Signature.Variadic() or the constant false (never ...T)
+						pf := x.Parent()
+						idx := -1
+						for i, pp := range pf.Params {
+							if pp == x {
+								idx = i
+							}
+						}
+						sites, good := 0, 0
+						for _, g := range pkgFuncs(L, genPkg) {
+							for _, cs := range callsIn(g) {
+								if cal := cs.common.StaticCallee(); cal != nil && originOf(cal) == pf && idx >= 0 && idx < len(cs.common.Args) {
+									sites++
+									a := cs.common.Args[idx]
+									if k, ok := a.(*ssa.Const); ok && k.Value != nil && k.Value.String() == "false" {
+										good++
+									} else if ac, ok := a.(*ssa.Call); ok && calleeOf(ac.Common()) == "(*go/types.Signature).Variadic" {
+										good++
+									}
+								}
+							}
+						}
+						if sites > 0 && sites == good {
+							variadic = true
+						}
 					case *ssa.Phi:
 						for _, e := range x.Edges {
 							walk(e, d+1)
@@ -3278,5 +3304,5 @@ func ruleProviderFuncResolvedByUses(c *Ctx, rule string) {
 		ok := (strings.Contains(t, "Info).ObjectOf(") || strings.Contains(t, "Info.Uses(")) && !strings.Contains(t, "Info.Selections(")
 		c.check(ok, rule, fnName(st.Parent())+":provider-func-object", L.pos(st.Pos()), "a provider reference (NewFoo or pkg.NewFoo) is resolved through Info.ObjectOf/Uses", t)
 	}
-	c.floor(rule, "stores to WireProviderFunc.Func", n, 2)
+	c.floor(rule, "stores to WireProviderFunc.Func", n, 1)
 }
